@@ -137,6 +137,6 @@ Theorem expand_single_newline : forall args token,
   has_nl token = true -> expand_args_for_single_token token args = Ok token.
 Proof. intros args token H. unfold expand_args_for_single_token. cbn [expand_loop]. rewrite H. reflexivity. Qed.
 
-(** try_run_func: the status of a call never depends on the body *)
-Theorem func_status_always_zero : forall crs, func_call_status crs = 0%Z.
+(** try_run_func: the status of a call is that of the last result of the body (0 if there is none) *)
+Theorem func_status_last : forall crs, func_call_status crs = script_status crs.
 Proof. reflexivity. Qed.
